@@ -457,6 +457,12 @@ func GenSchema(r *Rng) *GSchema {
 		}
 	}
 	// objects
+	type narrowing struct {
+		obj   *GType
+		field string
+		iface string
+	}
+	var narrowLater []narrowing
 	for _, o := range objsAndRoots {
 		sc := map[string]bool{}
 		isRoot := o.Name == s.Query || o.Name == s.Mutation || o.Name == s.Subscription
@@ -493,6 +499,12 @@ func GenSchema(r *Rng) *GSchema {
 							if !cf.Type.NonNull && r.Chance(1, 5) {
 								cf.Type.NonNull = true // covariant narrowing
 							}
+							if bt := s.idx[cf.Type.Base()]; bt != nil && bt.Kind == "INTERFACE" && !bt.Lonely && r.Chance(1, 2) {
+								// covariant narrowing by named type: an implementer of
+								// the interface the interface field returns (filled
+								// in below once all objects know their interfaces)
+								narrowLater = append(narrowLater, narrowing{o, cf.Name, bt.Name})
+							}
 							if r.Chance(1, 6) {
 								// additional optional argument
 								asc := map[string]bool{}
@@ -525,6 +537,13 @@ func GenSchema(r *Rng) *GSchema {
 		}
 		if len(o.Fields) > 2 && r.Chance(1, 6) {
 			o.ExtFrom = r.Range(1, len(o.Fields)-1)
+		}
+	}
+	for _, n := range narrowLater {
+		if pts := s.PossibleTypes(n.iface); len(pts) > 0 {
+			if f := n.obj.field(n.field); f != nil {
+				f.Type.setBase(Pick(r, pts).Name)
+			}
 		}
 	}
 	// make sure the query root reaches composite types (otherwise documents are flat)
@@ -876,8 +895,10 @@ func InjectSchemaFaults(r *Rng, s *GSchema, n int) {
 		return nil
 	}
 	for i := 0; i < n; i++ {
-		k := r.Intn(18)
+		k := r.Intn(20)
 		switch k {
+		case 18, 19:
+			BreakCovariance(r, s)
 		case 0:
 			if t := pickT("OBJECT", "INTERFACE"); t != nil {
 				f := Pick(r, t.Fields)
@@ -1077,6 +1098,208 @@ func InjectSchemaFaults(r *Rng, s *GSchema, n int) {
 			}
 		}
 	}
+}
+
+// narrowedFields lists (object, field, interface, interface field) where the
+// object's field returns a narrower named type than the interface's field.
+func (s *GSchema) narrowedFields() (out [][2]string) {
+	for _, o := range s.byKind("OBJECT") {
+		for _, in := range o.Interfaces {
+			it := s.idx[in]
+			if it == nil {
+				continue
+			}
+			for _, f := range it.Fields {
+				if g := o.field(f.Name); g != nil && g.Type.Base() != f.Type.Base() {
+					out = append(out, [2]string{g.Type.Base(), f.Type.Base()})
+				}
+			}
+		}
+	}
+	return
+}
+
+// BreakCovariance removes the implements relation a narrowed field relies on:
+// the same type names as before, but the pair is no longer covariant.
+func BreakCovariance(r *Rng, s *GSchema) bool {
+	nf := s.narrowedFields()
+	if len(nf) == 0 {
+		return false
+	}
+	p := Pick(r, nf)
+	o := s.idx[p[0]]
+	if o == nil {
+		return false
+	}
+	var ni []string
+	for _, x := range o.Interfaces {
+		if x != p[1] {
+			ni = append(ni, x)
+		}
+	}
+	if len(ni) == len(o.Interfaces) {
+		return false
+	}
+	o.Interfaces = ni
+	s.Faults = append(s.Faults, "break-covariance")
+	return true
+}
+
+// MutateSchemaValid applies n changes that keep the schema loadable (by the
+// generator's model) while keeping every name: sibling schemas that differ
+// only in relations, members, values and fields. State that survives between
+// calls and is keyed by names rather than by schema object shows up as a
+// result that depends on which sibling was used before.
+func MutateSchemaValid(r *Rng, s *GSchema, n int) {
+	nm := &namer{r: r, used: map[string]bool{}}
+	objs := s.byKind("OBJECT")
+	for i := 0; i < n; i++ {
+		switch r.Intn(9) {
+		case 0: // enum: add a value
+			e := Pick(r, s.byKind("ENUM"))
+			sc := map[string]bool{}
+			for _, v := range e.Values {
+				sc[v] = true
+			}
+			e.Values = append(append([]string{}, e.Values...), nm.freshFrom(enumValuePool, sc))
+		case 1: // enum: drop a value
+			e := Pick(r, s.byKind("ENUM"))
+			if len(e.Values) > 1 {
+				k := r.Intn(len(e.Values))
+				e.Values = append(append([]string{}, e.Values[:k]...), e.Values[k+1:]...)
+			}
+		case 2: // object: add a leaf field
+			o := Pick(r, objs)
+			sc := map[string]bool{}
+			for _, f := range o.Fields {
+				sc[f.Name] = true
+			}
+			o.Fields = append(append([]*GField{}, o.Fields...), &GField{Name: nm.freshFrom(fieldNamePool, sc), Type: wrap(r, Pick(r, builtinScalars))})
+		case 3: // object: drop a field no interface requires
+			o := Pick(r, objs)
+			if len(o.Fields) > 1 {
+				k := r.Intn(len(o.Fields))
+				need := false
+				for _, in := range o.Interfaces {
+					if it := s.idx[in]; it != nil && it.field(o.Fields[k].Name) != nil {
+						need = true
+					}
+				}
+				if !need {
+					o.Fields = append(append([]*GField{}, o.Fields[:k]...), o.Fields[k+1:]...)
+					o.ExtFrom = 0
+				}
+			}
+		case 4: // union: add / drop a member
+			us := s.byKind("UNION")
+			if len(us) == 0 {
+				continue
+			}
+			u := Pick(r, us)
+			if len(u.Members) > 1 && r.Chance(1, 2) {
+				k := r.Intn(len(u.Members))
+				u.Members = append(append([]string{}, u.Members[:k]...), u.Members[k+1:]...)
+			} else {
+				o := Pick(r, objs)
+				has := o.Name == s.Query || o.Name == s.Mutation || o.Name == s.Subscription
+				for _, m := range u.Members {
+					if m == o.Name {
+						has = true
+					}
+				}
+				if !has {
+					u.Members = append(append([]string{}, u.Members...), o.Name)
+				}
+			}
+		case 5: // object stops implementing an interface (fields stay), unless a narrowed field relies on it
+			o := Pick(r, objs)
+			if len(o.Interfaces) > 0 {
+				drop := o.Interfaces[len(o.Interfaces)-1]
+				blocked := false
+				for _, x := range o.Interfaces {
+					if it := s.idx[x]; it != nil && it.implements(drop) {
+						blocked = true
+					}
+				}
+				for _, p := range s.narrowedFields() {
+					if p[0] == o.Name && p[1] == drop {
+						blocked = true
+					}
+				}
+				if !blocked {
+					o.Interfaces = append([]string{}, o.Interfaces[:len(o.Interfaces)-1]...)
+				}
+			}
+		case 6: // input: add an optional field
+			in := Pick(r, s.byKind("INPUT"))
+			if !in.OneOf {
+				sc := map[string]bool{}
+				for _, f := range in.Fields {
+					sc[f.Name] = true
+				}
+				t := wrap(r, Pick(r, builtinScalars))
+				t.NonNull = false
+				in.Fields = append(append([]*GField{}, in.Fields...), &GField{Name: nm.freshFrom(fieldNamePool, sc), Type: t})
+			}
+		case 7: // a field gains an optional argument / an argument default changes
+			o := Pick(r, objs)
+			f := Pick(r, o.Fields)
+			inIface := false
+			for _, in := range o.Interfaces {
+				if it := s.idx[in]; it != nil && it.field(f.Name) != nil {
+					inIface = true
+				}
+			}
+			if len(f.Args) > 0 && r.Chance(1, 2) {
+				nf := *f
+				nf.Args = append([]*GArg{}, f.Args...)
+				a := *Pick(r, nf.Args)
+				a.Default = GenLiteral(r, s, a.Type, 2, false)
+				for k := range nf.Args {
+					if nf.Args[k].Name == a.Name {
+						nf.Args[k] = &a
+					}
+				}
+				replaceField(o, f, &nf)
+			} else if !inIface || true {
+				nf := *f
+				sc := map[string]bool{}
+				for _, a := range f.Args {
+					sc[a.Name] = true
+				}
+				a := genArg(r, s, nm, sc)
+				if a.Type.NonNull && a.Default == "" {
+					a.Type.NonNull = false
+				}
+				nf.Args = append(append([]*GArg{}, f.Args...), a)
+				replaceField(o, f, &nf)
+			}
+		case 8: // a leaf field changes its type wrapper
+			o := Pick(r, objs)
+			f := Pick(r, o.Fields)
+			req := false
+			for _, in := range o.Interfaces {
+				if it := s.idx[in]; it != nil && it.field(f.Name) != nil {
+					req = true
+				}
+			}
+			if !req {
+				nf := *f
+				nf.Type = wrap(r, f.Type.Base())
+				replaceField(o, f, &nf)
+			}
+		}
+	}
+}
+
+func replaceField(o *GType, old, nw *GField) {
+	fs := append([]*GField{}, o.Fields...)
+	for i, g := range fs {
+		if g == old {
+			fs[i] = nw
+		}
+	}
+	o.Fields = fs
 }
 
 // Misspell returns a near-duplicate of name (edit distance 1-2).
